@@ -632,6 +632,54 @@ pub fn run_composite(idx: u64, rep: &mut ChunkReport) {
     }
 }
 
+/// Text family for the comparator's chunking: every length 0..=26 (three 8-byte chunks and a tail), all 'm' except for
+/// at most one position that holds 'a' (smaller), 'z' (greater) or a two-byte character.
+pub fn text_family() -> Vec<String> {
+    let mut v = vec![];
+    for len in 0..=26usize {
+        v.push("m".repeat(len));
+        for pos in 0..len {
+            for c in ["a", "z", "\u{e9}"] {
+                let mut s = "m".repeat(pos);
+                s.push_str(c);
+                s.push_str(&"m".repeat(len - pos - 1));
+                v.push(s);
+            }
+        }
+    }
+    v
+}
+
+fn text_pair_row(i: usize, rep: &mut ChunkReport) {
+    let fam = text_family();
+    let a = DataType::Blob(Blob::from(fam[i].as_str()));
+    for t in &fam {
+        let b = DataType::Blob(Blob::from(t.as_str()));
+        rep.evaluations += 1;
+        rep.nontrivial += 1;
+        let want = fam[i].as_bytes().cmp(t.as_bytes());
+        let got = guard(|| (a.partial_cmp(&b), a == b, h(&a) == h(&b)));
+        match got {
+            Ok((ord, eq, same_hash)) => {
+                if ord != Some(want) && rep.failures.len() < 10 {
+                    rep.failures.push(tag(&[], format!("text comparison is not byte-wise lexicographic: cmp({:?}, {:?}) = {:?}, expected {:?}", fam[i], t, ord, want)));
+                }
+                if eq != (want == Ordering::Equal) && rep.failures.len() < 10 {
+                    rep.failures.push(tag(&[], format!("text equality wrong for {:?} / {:?}", fam[i], t)));
+                }
+                if eq && !same_hash && rep.failures.len() < 10 {
+                    rep.failures.push(tag(&[], format!("equal texts hash differently: {:?}", fam[i])));
+                }
+            }
+            Err(e) => {
+                if rep.failures.len() < 10 {
+                    rep.failures.push(tag(&[], format!("comparing {:?} with {:?}: {e}", fam[i], t)));
+                }
+            }
+        }
+    }
+}
+
 pub fn grid_len() -> u64 {
     grid().len() as u64
 }
@@ -669,6 +717,13 @@ pub fn worker(_params: &Value, case: &Value) -> Value {
             for i in c.start..c.end {
                 run_sql_type(i as usize, &mut rep);
             }
+        }
+        "text-pairs" => {
+            let n = text_family().len() as u64;
+            for i in c.start..c.end.min(n) {
+                text_pair_row(i as usize, &mut rep);
+            }
+            rep.sample = format!("text #{} of the family against every text of the family", c.start);
         }
         "composite" => {
             for i in c.start..c.end.min(composite_len()) {
